@@ -27,7 +27,7 @@ ASSUMPTIONS = [
     'comparison tolerance 1e-11 relative to the product of the core norms',
 ]
 
-NT = {'order1', 'size1mode', 'mixed_size1', 'rank1bond', 'complex', 'mixed_dtype', 'overparam', 'ranks_differ',
+NT = {'int_dtype', 'b:int_dtype', 'order1', 'size1mode', 'mixed_size1', 'rank1bond', 'complex', 'mixed_dtype', 'overparam', 'ranks_differ',
       'b:order1', 'b:size1mode', 'b:rank1bond', 'b:complex', 'b:overparam', 'b:mixed_size1'}
 
 
@@ -41,8 +41,8 @@ def nontrivial(labels):
 
 @st.composite
 def two_same_dims(draw):
-    a = draw(gen.tt_spec(max_order=5, max_dim=3, max_rank=4))
-    b = draw(gen.tt_spec(rows=a['rows'], cols=a['cols'], kind='given', max_rank=4))
+    a = draw(gen.tt_spec(max_order=5, max_dim=3, max_rank=4, int_dtype=True))
+    b = draw(gen.tt_spec(rows=a['rows'], cols=a['cols'], kind='given', max_rank=4, int_dtype=True))
     return {'a': a, 'b': b}
 
 
@@ -82,7 +82,7 @@ def body_sumdiff(case):
 
 @st.composite
 def tt_and_scalar(draw):
-    return {'a': draw(gen.tt_spec(max_order=5, max_rank=4)), 's': list(draw(gen.SCALAR))}
+    return {'a': draw(gen.tt_spec(max_order=5, max_rank=4, int_dtype=True)), 's': list(draw(gen.SCALAR))}
 
 
 def body_scalar(case):
@@ -109,9 +109,9 @@ def body_scalar(case):
 
 @st.composite
 def matmul_pair(draw):
-    a = draw(gen.tt_spec(max_order=4, max_dim=3, max_rank=3))
+    a = draw(gen.tt_spec(max_order=4, max_dim=3, max_rank=3, int_dtype=True))
     kind = draw(st.sampled_from(['vector', 'operator', 'operator']))
-    b = draw(gen.tt_spec(rows=a['cols'], kind=kind, max_dim=3, max_rank=3))
+    b = draw(gen.tt_spec(rows=a['cols'], kind=kind, max_dim=3, max_rank=3, int_dtype=True))
     return {'a': a, 'b': b, 'alias': draw(st.booleans())}
 
 
@@ -142,7 +142,7 @@ def body_matmul(case):
 
 @st.composite
 def transpose_case(draw):
-    a = draw(gen.tt_spec(max_order=5, max_rank=4))
+    a = draw(gen.tt_spec(max_order=5, max_rank=4, int_dtype=True))
     d = len(a['rows'])
     subset = draw(st.one_of(st.none(), st.lists(st.integers(0, d - 1), unique=True, max_size=d)))
     conj = draw(st.booleans())
@@ -211,7 +211,7 @@ def body_transpose(case):
 
 @st.composite
 def readout_case(draw):
-    a = draw(gen.tt_spec(max_order=5, max_dim=4, max_rank=4))
+    a = draw(gen.tt_spec(max_order=5, max_dim=4, max_rank=4, int_dtype=True))
     idx = [gen.index_tuple(draw, a['rows'], a['cols']) for _ in range(3)]
     return {'a': a, 'indices': idx, 'index_type': draw(st.sampled_from(['int', 'np.int64']))}
 
@@ -254,7 +254,7 @@ def norm_case(draw):
     if p == 1:
         a = draw(gen.tt_spec(max_order=5, max_rank=4, cplx=False, entries='nonneg'))
     else:
-        a = draw(gen.tt_spec(max_order=5, max_rank=4))
+        a = draw(gen.tt_spec(max_order=5, max_rank=4, int_dtype=True))
         a['zero_cores'] = draw(st.sampled_from([[], [], [], [0], [len(a['rows']) - 1]]))
     return {'a': a, 'p': p}
 
